@@ -6,6 +6,6 @@ Require Import Yui.Model.KhCube Yui.Model.KhSigns Yui.Model.KhHomology.
 Extraction Language OCaml.
 Extraction "../ocaml/gen/c02_model.ml"
   Z.add N.add Nat.add
-  KhSigns.signed_nums KhSigns.crossing_signs
+  KhSigns.signed_nums KhSigns.kh_crossing_signs
   KhCube.mirror KhCube.crossing_num KhCube.first_edge KhCube.circles KhCube.link_edges
   KhHomology.build_cube KhHomology.kh_groups KhHomology.kh_groups_bigraded.
